@@ -38,6 +38,7 @@ SPECIAL = [
     "Conditional(And(Gt(x, 0), Lt(x, 1), Ge(p, 0)), x, -x)", "Conditional(Or(Gt(x, 1), Not(Gt(p, 0))), x*p, p)", "Lt(x, p)*3 + x",
     "-Conditional(Ge(x, 0.5), 1, 0)*p", "sqrt(Conditional(Ge(x, 0.5), 1, 0) + 1)", "Mod(x, 2) + Mod(-x, 3)", "pi*x", "log(abs(x) + 1) - ln(2)",
     "acos(x/(1 + abs(x)))", "ContinuousConditional(Gt(x, 0.5), 1, p, 0.1)", "x/3", "1/3*x", "(x + p)**2", "-(-x)", "x - (p - x)", "x/(p/x + 1)",
+    "Conditional(Not(And(Gt(x, 0.2), Lt(x, 2))), 1, 2)", "Conditional(Not(Or(Gt(x, 2), Lt(p, 0))), 1, 2)", "Conditional(Not(Eq(x, x)), 1, 2)",
     "Conditional(Eq(x, 1), p, x)", "Abs(x - p)", "exp(-x**2)", "tan(0.25*sin(x))", "atan(x) + asin(x/(2 + abs(x)))", "0.1 + 0.2", "3*0.1", "1e3", "2.5e-1*x",
 ]
 
@@ -149,8 +150,20 @@ def main(argv=None):
     rng = random.Random(a.seed)
     gen = lang.Gen(rng, max_depth=3, p_cond=0.25)
     core.CASE_SECONDS = 90
+    if a.replay:
+        import json as _json
+        data = _json.load(open(a.replay))
+        text = data.get("decorated") or data["text"]
+        c = pipeline.Case(drv, text)
+        rep.case(key=text, nontrivial=True)
+        if c.err is not None:
+            rep.violation(f"the recorded model is rejected: {c.err}", {"kind": "direct", "text": text})
+        else:
+            core.guarded(rep, text, check_ode, rep, drv, rng, c.ode, text, "replay", c)
+        drv.close()
+        return rep.finish(level="proof", rule="replay of " + a.replay, trusted_base=["see the full check"])
     # ---- directed: constructs sympy normalises
-    specials = SPECIAL if a.tier != "quick" else rng.sample(SPECIAL, 14) + ["exp(1)", "Conditional(Not(Eq(x, p)), 1, 2)", "-Conditional(Ge(x, 0.5), 1, 0)*p", "6.02214076e23*1e-23*x", "1.23456789e-20*x*1e20"]
+    specials = SPECIAL if a.tier != "quick" else rng.sample(SPECIAL, 14) + ["exp(1)", "Conditional(Not(Eq(x, x)), 1, 2)", "Conditional(Not(And(Gt(x, 0.2), Lt(x, 2))), 1, 2)", "Conditional(Not(Eq(x, p)), 1, 2)", "-Conditional(Ge(x, 0.5), 1, 0)*p", "6.02214076e23*1e-23*x", "1.23456789e-20*x*1e20"]
     for i in range(0, len(specials), 3):
         chunk = specials[i:i + 3]
         lines = [f"s{j} = {e}" for j, e in enumerate(chunk)]
